@@ -4,6 +4,9 @@ plugin provider (stage inputs whose `enabled` / `stop_if` values are raw strings
 run through `Arca.Model.Gate` with the decisions extracted from the source (`Arca.Gen.pluginEnabledDecision`,
 `Arca.Gen.pluginStopDecision`); the observed end must be one the model admits.
 
+  Lines of kind "boolread" carry the answer of the REAL `schema.NewBoolSchema().Unserialize` for one spelling; it must be
+  what `Arca.Model.boolRead` says (the provider's decision on `enabled` goes through that schema since /repo d308cbb).
+
   diff  the plugin code ran / the step reported `disabled` although the model does not admit that end, or the step completed
         with an end the model does not admit BEFORE the harness' final ForceClose was called
   ok    otherwise (an end caused by the final ForceClose coming early is not held against anybody)
@@ -19,7 +22,9 @@ open Arca.Model Arca.Model.Gate
 
 def gateCfg : Cfg :=
   { enabledDec := Arca.Gen.pluginEnabledDecision
-    stopDec := Arca.Gen.pluginStopDecision }
+    enabledRefuse := Arca.Gen.pluginEnabledRefusal
+    stopDec := Arca.Gen.pluginStopDecision
+    stopOnce := Arca.Gen.pluginStopOnce }
 
 /-- raw value of a script argument: JSON null = nil interface value -/
 def gateArg (j : Json) : Option Val :=
@@ -95,6 +100,19 @@ def checkGateCase (c : Json) : String × Json :=
     else if p == .executing || p == .disabledEnd || completedBeforeFinal then ("diff", detail)
     else ("ok", Json.mkObj [("note", "end caused by the final ForceClose"), ("detail", detail)])
 
+/-- kind "boolread": the real `schema.NewBoolSchema().Unserialize` applied to one value, against `boolRead` -/
+def checkBoolRead (c : Json) : String × Json :=
+  let arg := (c.getObjVal? "arg").toOption.getD .null
+  let model : Option Bool := match gateArg arg with
+    | some v => boolRead v
+    | none => none
+  let impl : Option Bool := if getBool c "ok" then some (getBool c "value") else none
+  let show_ (o : Option Bool) : Json := match o with
+    | some b => .bool b
+    | none => .str "rejected"
+  let detail := Json.mkObj [("arg", arg), ("model", show_ model), ("impl", show_ impl)]
+  if model == impl then ("ok", detail) else ("diff", detail)
+
 partial def eachLineG (h : IO.FS.Stream) (f : String → IO Unit) : IO Unit := do
   let line ← h.getLine
   if line.isEmpty then return ()
@@ -112,7 +130,7 @@ def cmdGate (_args : List String) : IO Unit := do
       if (getStr c "skip") != "" then
         stdout.putStrLn (Json.mkObj [("id", getStr c "id"), ("verdict", "skip"), ("detail", getStr c "skip")]).compress
       else
-        let (v, d) := checkGateCase c
+        let (v, d) := if getStr c "kind" == "boolread" then checkBoolRead c else checkGateCase c
         stdout.putStrLn (Json.mkObj [("id", getStr c "id"), ("verdict", v), ("detail", d)]).compress
     stdout.flush
 
